@@ -3,7 +3,7 @@
 worktree of /repo (never to /repo itself), and records which check / clause detects it.
 usage: tools/run_seeded.py [--all-checks] [ids...]"""
 import json, os, subprocess, sys, re
-V = "/verif"
+V = os.path.dirname(os.path.dirname(os.path.abspath(__file__)))
 WT = "/tmp/seedrun/wt"
 args = [a for a in sys.argv[1:] if not a.startswith("--")]
 allchecks = "--all-checks" in sys.argv
